@@ -392,6 +392,10 @@ func init() {
 		}
 		return ""
 	}
+	{ // concurrent callers / readers (concurrent.go), after the sequential phases
+		conc, run := concPhase(p, concScripts), p.Run
+		p.Run = func(c *mon.Ctx) { run(c); conc(c) }
+	}
 	mon.Register(p)
 }
 
